@@ -460,6 +460,9 @@ class ShardedSettings(SubCheck):
                 'keys': st.lists(c02.natives, min_size=1, max_size=12),
                 # how the directory is written when the cache is created and when it is opened again: the same directory
                 # spelled absolutely, with ~ (HOME points at the scratch parent) or with an environment variable
+                # the process that created the cache was killed after this many shard directories (0 = not): creation is
+                # completed by the next open with the same arguments
+                'partial': st.integers(0, 4),
                 'spell': st.tuples(st.sampled_from(['absolute', 'absolute', 'tilde', 'envvar']), st.sampled_from(['absolute', 'tilde', 'envvar'])),
             }
         )
@@ -486,6 +489,15 @@ class ShardedSettings(SubCheck):
             if case['kind'] == 'fanout':
                 fc = diskcache.FanoutCache(first, shards=shards, **kw)
                 handles.append(fc)
+                partial = case.get('partial', 0)
+                if 0 < partial < shards:
+                    import shutil
+
+                    fc.close()
+                    for i in range(partial, shards):
+                        shutil.rmtree(os.path.join(path, '%03d' % i))
+                    fc = diskcache.FanoutCache(first, shards=shards, **kw)
+                    handles.append(fc)
                 keys, seen = [], set()
                 for k in case['keys']:
                     k = rebuild(k)
@@ -543,7 +555,7 @@ class ShardedSettings(SubCheck):
                         raise Violation('C18/settings-lost/fanout-%s' % key, 'shard %d persists %s=%r after %s, created with %r' % (i, key, s[key], case['how'], kw[key]))
             if os.path.realpath(view.directory) != os.path.realpath(path):
                 raise Violation('C18/sharded/directory', 'opened as %r the cache reports directory %r, expected %r' % (again, view.directory, path))
-            return {'nontrivial': case['size_limit'] not in (None, 2**30) or shards >= 2, 'classes': ['kind=' + case['kind'], 'how=' + case['how'], 'spelled=%s/%s' % tuple(case.get('spell', ('absolute', 'absolute')))]}
+            return {'nontrivial': case['size_limit'] not in (None, 2**30) or shards >= 2, 'classes': ['kind=' + case['kind'], 'how=' + case['how'], 'spelled=%s/%s' % tuple(case.get('spell', ('absolute', 'absolute')))] + (['creation-interrupted'] if 0 < case.get('partial', 0) < shards and case['kind'] == 'fanout' else [])}
         finally:
             for h in handles:
                 try:
